@@ -28,7 +28,6 @@ var builtinRef = map[string][2]string{
 }
 
 // kinds encoding/json quotes under the ",string" option (encode.go: typeFields)
-var stringableRef = []string{"bool", "float32", "float64", "int", "int16", "int32", "int64", "int8", "string", "uint", "uint16", "uint32", "uint64", "uint8", "uintptr"}
 
 func checkC16(c *Ctx) {
 	c.Explain("scanned schemas follow encoding/json: (R1) swaggerSchemaForType maps every Go builtin to the (type, format) encoding/json's output has, and complex kinds to an error; (R2) a slice of uint8-kinded elements without MarshalJSON/MarshalText is a base64 string, the TextMarshaler test precedes pointer unwrapping, time.Time (by package path) a date-time string, json.RawMessage an object, string-keyed maps additionalProperties; (R3) no type switch over go/types.Type in the scanner panics in its default arm; (R4) json tags: the option scan skips the name element, '-' ignores the field, ',string' applies exactly to the kinds encoding/json quotes; unexported fields are skipped but embedded fields are never filtered on their own export status; (R5) packages are identified by import path, never by name, in comparisons and cache keys. " +
@@ -339,26 +338,80 @@ func checkJSONTags(c *Ctx, rule string, pk *packages.Package) {
 		})
 		c.Check(okDash, rule, "codescan.parseJSONTag › name '-' ignores the field", c.posOf(pk, fd.Pos()), "ignore = true", "a field tagged json:\"-\" is not ignored")
 	}
-	// isFieldStringable kinds
+	// ",string": decided on the resolved type of the field, not on the spelling of its type
 	if fd := load.FuncDecl(pk, "isFieldStringable"); fd == nil {
 		c.Anchor(rule, "isFieldStringable", "not found")
 	} else {
-		var got []string
+		// the syntactic pre-test must let every type name through (a defined scalar type cannot be known by name)
+		byName := false
 		ast.Inspect(fd.Body, func(n ast.Node) bool {
-			cc, ok := n.(*ast.CaseClause)
-			if !ok {
-				return true
-			}
-			for _, e := range cc.List {
-				if s, ok := goan.StringVal(info, e); ok {
-					got = append(got, s)
+			if sw, ok := n.(*ast.SwitchStmt); ok {
+				if se, ok := sw.Tag.(*ast.SelectorExpr); ok && se.Sel.Name == "Name" {
+					byName = true
 				}
 			}
 			return true
 		})
-		sort.Strings(got)
-		c.Check(strings.Join(got, ",") == strings.Join(stringableRef, ","), rule, "codescan.isFieldStringable › kinds", c.posOf(pk, fd.Pos()), strings.Join(got, ","),
-			fmt.Sprintf("kinds treated as stringable are %v, encoding/json quotes %v under ',string'", got, stringableRef))
+		c.Check(!byName, rule, "codescan.isFieldStringable › type names are not enumerated", c.posOf(pk, fd.Pos()), "every identifier passes the syntactic test",
+			"the ',string' option is granted by the spelling of the field's type (a list of predeclared names): fields of a defined scalar type (type MyInt int), byte or rune are described as numbers although encoding/json quotes them")
+	}
+	if fd := load.FuncDecl(pk, "schemaBuilder.buildFromStruct"); fd != nil {
+		// the flag is applied together with a predicate over the field's resolved type
+		var pred *types.Func
+		ast.Inspect(fd.Body, func(n ast.Node) bool {
+			ifs, ok := n.(*ast.IfStmt)
+			if !ok {
+				return true
+			}
+			mentionsFlag := false
+			ast.Inspect(ifs.Cond, func(m ast.Node) bool {
+				if id, ok := m.(*ast.Ident); ok && id.Name == "isString" {
+					mentionsFlag = true
+				}
+				return true
+			})
+			if !mentionsFlag {
+				return true
+			}
+			ast.Inspect(ifs.Cond, func(m ast.Node) bool {
+				if call, ok := m.(*ast.CallExpr); ok && len(call.Args) == 1 {
+					if ac, ok := ast.Unparen(call.Args[0]).(*ast.CallExpr); ok && goan.LastSel(ac.Fun) == "Type" {
+						if fn := goan.Callee(info, call); fn != nil && fn.Pkg() == pk.Types {
+							pred = fn
+						}
+					}
+				}
+				return true
+			})
+			return true
+		})
+		okKinds, got := false, ""
+		if pred != nil {
+			if pd := load.FuncDecl(pk, pred.Name()); pd != nil {
+				kinds := map[string]bool{}
+				under := false
+				ast.Inspect(pd.Body, func(n ast.Node) bool {
+					if se, ok := n.(*ast.SelectorExpr); ok {
+						if o, ok := info.Uses[se.Sel].(*types.Const); ok && o.Pkg() != nil && o.Pkg().Path() == "go/types" && strings.HasPrefix(o.Name(), "Is") {
+							kinds[o.Name()] = true
+						}
+						if se.Sel.Name == "Underlying" {
+							under = true
+						}
+					}
+					return true
+				})
+				var ks []string
+				for k := range kinds {
+					ks = append(ks, k)
+				}
+				sort.Strings(ks)
+				got = strings.Join(ks, ",")
+				okKinds = under && got == "IsBoolean,IsFloat,IsInteger,IsString"
+			}
+		}
+		c.Check(pred != nil && okKinds, rule, "codescan.schemaBuilder.buildFromStruct › ',string' applies to the kinds encoding/json quotes", c.posOf(pk, fd.Pos()), "decided on the field's type: underlying kind in {string, float, integer, boolean}",
+			fmt.Sprintf("the ',string' option is not decided by a predicate over the field's resolved type testing exactly the kinds encoding/json quotes (found predicate=%v, kinds=[%s]; wanted Underlying() and IsBoolean,IsFloat,IsInteger,IsString)", pred != nil, got))
 	}
 	// buildFromStruct: the loop over embedded fields must not `continue` on !fld.Exported(); the ordinary-field loop must
 	if fd := load.FuncDecl(pk, "schemaBuilder.buildFromStruct"); fd == nil {
